@@ -1,6 +1,8 @@
 mod alias;
 mod ctor;
+mod disc;
 mod fl;
+mod geom;
 mod obj;
 mod reg;
 mod sup;
@@ -8,6 +10,7 @@ mod rng;
 mod tree;
 mod tw;
 mod util;
+mod zig;
 
 fn main() {
     util::install_quiet_panic_hook();
@@ -23,6 +26,10 @@ fn main() {
         "ctor-fuzz" => ctor::fuzz(rest),
         "obj-replay" => obj::replay(rest),
         "sup-drive" => sup::drive(rest),
+        "disc-drive" => disc::drive(rest),
+        "geom-drive" => geom::drive(rest),
+        "zig-export" => zig::export(rest),
+        "zig-drive" => zig::drive(rest),
         "tree-drive-floats" => tree::drive_floats(rest),
         _ => { eprintln!("unknown subcommand {:?}", cmd); 2 }
     };
